@@ -318,8 +318,12 @@ func newEventFromUntrustedJSONV1(eventJSON []byte, roomVersion IRoomVersion) (PD
 	// https://github.com/matrix-org/synapse/blob/v0.18.5/synapse/crypto/event_signing.py#L57-L62
 	var err error
 	for _, key := range []string{"outlier", "destinations", "age_ts", "unsigned"} {
-		if eventJSON, err = sjson.DeleteBytes(eventJSON, key); err != nil {
-			return nil, err
+		// sjson.DeleteBytes removes one member: a member that is written twice has to go twice
+		for n := -1; n != len(eventJSON) && gjson.GetBytes(eventJSON, key).Exists(); {
+			n = len(eventJSON)
+			if eventJSON, err = sjson.DeleteBytes(eventJSON, key); err != nil {
+				return nil, err
+			}
 		}
 	}
 
@@ -330,6 +334,9 @@ func newEventFromUntrustedJSONV1(eventJSON []byte, roomVersion IRoomVersion) (PD
 		// the JSON text "null" unmarshals into a nil pointer
 		return nil, fmt.Errorf("gomatrixserverlib NewEventFromUntrustedJSON: event is not a JSON object")
 	}
+	// "unsigned" was dropped above; a member under another spelling that encoding/json also
+	// decodes into this field (Unsigned, UNSIGNED) is not the receiver's own either
+	res.eventFields.Unsigned = nil
 
 	if err := notOnlyTooManyBytes(checkID(res.eventFields.RoomID, "room", '!')); err != nil {
 		return nil, err
